@@ -229,61 +229,68 @@ def r3(cx, rec):
         rec.need(f.path in allowed, 'counter-writer/' + F.owner_fn(f).path, f, bi,
                  'the silence counter is written outside the timeout handler and the frame dispatcher')
     stores = [(bi, s) for f, bi, s in writers if f.path == D.path]
-    rec.need(len(stores) == 1, 'reset-store-count', D, None,
-             'expected exactly one reset store in the dispatcher, found %d' % len(stores))
-    if len(stores) != 1:
+    rec.need(len(stores) >= 1, 'reset-store-count', D, None, 'the frame dispatcher never writes the silence counter')
+    if not stores:
         return
-    sbb, st = stores[0]
-    op = st['rv']['op'] if st['rv']['k'] == 'use' else None
-    p = op.get('mv') or op.get('cp') if op else None
-    if not p or p.get('p'):
-        raise AnchorMissing('reset store is not `counter = <temp>`')
-    tloc = p['l']
-    defs = D.defs(tloc)
-    kinds = {}
-    for d in defs:
-        e = D._expr_def(d, frozenset())
-        c = mirq.const_of(e)
-        if c and c[0] == 0:
-            kinds[d[1]] = 'zero'
-        elif access_path(e) == path:
-            kinds[d[1]] = 'same'
-        else:
-            kinds[d[1]] = 'other:' + show(e)[:60]
-    # the switch that selects the value
-    sel = None
-    all_frame_sw = [sb for sb in D.switches() if D.cond(sb)[0][0] == 'discr' and
-                    re.search(r'^&?(mut )?frame::Frame$', D.cond(sb)[0][2])]
-    for sb in all_frame_sw:
-        if sbb in D.reach_from(sb) and all(b in D.reach_from(sb) for b in kinds):
-            sel = sb
-    if sel is None:
-        raise AnchorMissing('no switch over Frame variants selects the reset value')
-    e, ts, o = D.cond(sel)
-    names = F.variant_names(e[2])
+    store_bbs = {bi for bi, s in stores}
+    # per frame kind: effect on the counter of every feasible path that handles such a frame successfully
+    frame_keys = {}
+    for sb in D.switches():
+        e = D.cond(sb)[0]
+        if e[0] == 'discr' and re.search(r'^&?(mut )?frame::Frame$', e[2]):
+            frame_keys[show(e)] = sb
+    if not frame_keys:
+        raise AnchorMissing('the dispatcher never inspects the frame kind')
+    oks = set(C.ok_exit_blocks(D))
+    paths = [p for p in mirq.enumerate_paths(D, 0, oks, limit=200000) if p[-1] in oks]
+    effects = {}
+    where = {}
+    for p in paths:
+        pf = mirq.path_facts(D, p)
+        if pf is None:
+            continue
+        kinds = {v for k, v in pf['atoms'].items() if k in frame_keys}
+        if len(kinds) != 1:
+            # the frame kind is not established on this path (e.g. no frame at all): not a handled frame
+            if not kinds and not any(b in store_bbs for b in p):
+                continue
+            kinds = kinds or {'?'}
+        eff = 'same'
+        at = None
+        for pi, bb in enumerate(p):
+            for si, st in enumerate(D.blocks[bb]['s']):
+                if st['k'] == 'assign' and st['lhs'].get('p') and access_path(D.expr_place(st['lhs'])) == path:
+                    v = mirq._expr_with(D, p, ('rv', st['rv']), (pi, si), 0)
+                    c = mirq.const_of(v)
+                    at = bb
+                    if c and c[0] == 0:
+                        eff = 'zero'
+                    elif access_path(v) == path:
+                        pass
+                    else:
+                        eff = 'other:' + show(v)[:60]
+        for kd in kinds:
+            effects.setdefault(kd, set()).add(eff)
+            where.setdefault(kd, at if at is not None else p[-1])
     frame = F.adt('frame::Frame')
+    rec.need('?' not in effects, 'reset-without-kind', D, where.get('?'),
+             'the counter is written on a path where the kind of the received frame is not established')
     for v in frame['variants']:
-        dv = int(v.get('discr', v['vi']))
-        tgt = ts.get(dv, o)
-        r = D.reach_from(tgt, cut_blocks=[sbb])
-        hit = sorted({kinds[b] for b in kinds if b in r or b == tgt})
-        rec.site(D, tgt, 'Frame::%s -> counter := %s' % (v['name'], hit))
+        hit = sorted(effects.get(v['name'], []))
+        tgt = where.get(v['name'])
+        rec.site(D, tgt, 'Frame::%s -> counter := %s on every successfully handled path' % (v['name'], hit))
+        if not hit:
+            continue
         if v['name'] == 'KeepAlive':
             rec.need(hit == ['same'], 'reset-on-keepalive', D, tgt,
                      'a KeepAlive frame changes the silence counter (%s): a peer sending only '
                      'keep-alives would never be dropped' % hit)
         else:
             rec.need(hit == ['zero'], 'no-reset-on/' + v['name'], D, tgt,
-                     'frame kind %s does not reset the silence counter (%s): a live peer is '
+                     'frame kind %s can be handled successfully without the silence counter being reset (%s): a live peer is '
                      'closed for inactivity' % (v['name'], hit))
-    # every successful handling of a frame passes the reset
-    some_sw = [sb for sb in D.switches() if D.cond(sb)[0][0] == 'discr' and 'Option<frame::Frame>' in D.cond(sb)[0][2]]
-    start = 0
-    if some_sw:
-        ve = D.variant_edges(some_sw[0])
-        start = ve.get('Some', 0)
-    ok, bad = C.must_pass(D, [sbb], C.ok_exit_blocks(D), start=start)
-    rec.need(ok, 'reset-skipped', D, sbb, 'a successfully handled frame can bypass the counter reset')
+    rec.need('KeepAlive' in effects and len(effects) >= len(frame['variants']) - 1, 'frame-kinds-unhandled', D, None,
+             'successfully handled frame kinds: %s' % sorted(effects))
 
 
 @TABLE.rule('4', 'K3+K1', 'KeepAliveTimeout reaches KillReq; the manager\'s KillReq arm releases the '
